@@ -4,19 +4,33 @@
 EXTENDS Packages, Json
 CONSTANTS MaxDepth,
           AllowAmb      \* TRUE: histories may pass through states in which two used packages provide the same name
-VARIABLES st, hist, feat
+VARIABLES st, hist, feat,
+          rep           \* the redundant operations (Packages!Redundant) in hist, as a set
 Op(name, a, b, c) == [op |-> name, a |-> a, b |-> b, c |-> c]
 Ops == {Op("use", q, "", 0) : q \in P} \cup {Op("unuse", q, "", 0) : q \in P} \cup {Op("inpkg", q, "", 0) : q \in P}
        \cup {Op("export", n, "", 0) : n \in N} \cup {Op("unexport", n, "", 0) : n \in N}
        \cup {Op("def", k, n, v) : k \in Kinds, n \in N, v \in Vals}
        \cup {Op("undef", k, n, 0) : k \in Kinds, n \in N}
-GInit == st = Start /\ hist = <<>> /\ feat = {}
+GInit == st = Start /\ hist = <<>> /\ feat = {} /\ rep = {}
 GNext == /\ Len(hist) < MaxDepth
          /\ \E o \in Ops : /\ Enabled(st, o)
                            /\ st' \in Step(st, o)
                            /\ (AllowAmb \/ ~Ambiguous(st'))
                            /\ hist' = Append(hist, o)
                            /\ feat' = feat \cup Features(st, o) \cup StateFeatures(st')
+         /\ UNCHANGED rep
+\* the same exploration with at most MaxRep operations that ask for what already holds; the ghost (which operations they
+\* were) is part of the view so that the histories continue after such an operation, although the reference state is the
+\* one before it, and so that every such operation is followed by every continuation
+MaxRep == 1
+RNext == \/ GNext
+         \/ /\ Len(hist) < MaxDepth /\ Cardinality(rep) < MaxRep
+            /\ \E o \in Ops : /\ Redundant(st, o) /\ st' \in Step(st, o)
+                              /\ hist' = Append(hist, o) /\ rep' = rep \cup {o}
+                              /\ feat' = feat \cup Features(st, o) \cup StateFeatures(st')
+\* only histories that contain such an operation are emitted by this exploration (the others are PackagesGen.cfg's)
+EmitR == rep' = {} \/ PrintT(ToJson([ops |-> hist', feat |-> feat']))
+RView == <<st, rep>>
 Emit == PrintT(ToJson([ops |-> hist', feat |-> feat']))
 \* directed histories: two used packages provide the same name, then one of them stops providing it (unuse, unexport,
 \* undefine) or changes it - the name must fall back to / stay with the other provider
@@ -33,8 +47,8 @@ ConflictHistories ==
          THEN {Setup(q1, k, n, 1) \o Setup(q2, k, n, 2) \o <<Op("inpkg", P0, "", 0), Op("use", x, "", 0), Op("use", y, "", 0)>> \o ch :
                  ch \in Changes(q1, q2, k, n)}
          ELSE {} : q1 \in Q, q2 \in Q, k \in Kinds, n \in N, x \in Q, y \in Q}
-DInit == st = Start /\ feat = {} /\ hist \in ConflictHistories
-DNext == UNCHANGED <<st, hist, feat>>
+DInit == st = Start /\ feat = {} /\ rep = {} /\ hist \in ConflictHistories
+DNext == UNCHANGED <<st, hist, feat, rep>>
 EmitDirected == PrintT(ToJson([ops |-> hist, feat |-> feat]))
 \* simulation mode (long random histories through the same GNext): the state at the end of a walk is printed
 EmitState == Len(hist) < MaxDepth \/ PrintT(ToJson([ops |-> hist, feat |-> feat]))
